@@ -1,6 +1,6 @@
 #!/bin/bash
-# proc.sh ID N : verify + mutate
+# SEED_BASE=/tmp/seedN tools/procseed.sh ID N : confirm the sub-agent's change (verify_seed.sh), then run ./check ID against it (mutate.py)
 ID=$1; N=$2
-cd /verif
-if [ ! -f seeded/$ID-$N/verify.txt ]; then SEED_BASE=/tmp/seed9 tools/verify_seed.sh $ID $N 2>&1 | tail -1; fi
+cd "$(dirname "$0")/.."
+if [ ! -f seeded/$ID-$N/verify.txt ]; then tools/verify_seed.sh $ID $N 2>&1 | tail -1; fi
 tools/mutate.py $ID --only $ID-$N 2>&1 | cut -c1-700
